@@ -318,3 +318,157 @@ class Children(FnSpec):
             want = z3.Exists([r], z3.And(CH_HAS(r), R_NAME(r) == a.name.t, CH_OF(r, x)))
             cl = "without a version: the union over ALL releases of that schema name the container knows"
         return [("exactly-the-listed-children", z3.ForAll([x], res.has(x) == want), cl)]
+
+
+# ---- TOCSchemas.provider / parent_path / keys / values / items ------------------------------------------------------------------------------------------
+PkgKey = z3.DeclareSort("PackageNameVersion")
+HAS_PROVIDER = z3.Function("providers_map_lists_some_package_for", PRef, B)  # self._pkgs._providers.get(ref, []) is non-empty
+FIRST_PROVIDER = z3.Function("first_listed_provider_of", PRef, PkgKey)
+
+
+class PkgKeyV(SVal):
+    def __init__(self, t):
+        self.t = t
+
+    def py_is_none(self, cx):
+        return False
+
+
+class ProvidersList(SVal):
+    def __init__(self, ref):
+        self.ref = ref
+
+
+class ProvidersMap(SVal):
+    def meth_get(self, cx, ref, default=None):
+        if default != []:
+            raise Unsupported("_providers.get with another default than []")
+        return ProvidersList(ref.t)
+
+
+class PkgsStub(SVal):
+    def py_getattr(self, cx, n):
+        if n == "_providers":
+            return ProvidersMap()
+        raise Unsupported("TOCPackages attribute " + n)
+
+    def py_getitem(self, cx, k):
+        if isinstance(k, SMaybe):
+            if cx.decide(k.isnone):
+                cx.py_raise("KeyError", "None is no package")
+            k = k.val
+        if not isinstance(k, PkgKeyV):
+            raise Unsupported("TOCPackages[...] of something else than a package key")
+        cx.effect("pkginfo-of", k.t)
+        return ("pkginfo", k.t)
+
+
+def _iter(cx, x):
+    if isinstance(x, ProvidersList):
+        return x
+    raise Unsupported("iter() of something else")
+
+
+def _next(cx, it, *d):
+    if isinstance(it, ProvidersList) and d == (None,):
+        return SMaybe(z3.Not(HAS_PROVIDER(it.ref)), PkgKeyV(FIRST_PROVIDER(it.ref)))
+    raise Unsupported("next() of something else")
+
+
+class Provider(FnSpec):
+    file = "container/interface.py"
+    qual = "TOCSchemas.provider"
+    props = ("C20",)
+
+    def init(self):
+        self.bindings["iter"] = _iter
+        self.bindings["next"] = _next
+
+    def setup(self, cx):
+        me = SObj("TOCSchemasRead", name="self")
+        me.fields["_pkgs"] = PkgsStub()
+        return A(self=me, schema_ref=RefV(z3.Const("ref", PRef)))
+
+    def raises(self, cx, a):
+        return {"KeyError": z3.Not(HAS_PROVIDER(a.schema_ref.t))}
+
+    def ensures(self, cx, a, res):
+        ok = isinstance(res, tuple) and res[0] == "pkginfo"
+        return [("package-info-of-the-first-listed-provider", z3.BoolVal(False) if not ok else res[1] == FIRST_PROVIDER(a.schema_ref.t), "the package reported for a schema is the container's own record of (the first of) the packages it lists as providing that schema — not whatever the environment has installed")]
+
+
+class ParentsMap(SVal):
+    def py_getitem(self, cx, k):
+        if not isinstance(k, RefV):
+            raise Unsupported("_parents[...] of something else than a reference")
+        if not cx.decide(PARENTS_HAS(k.t)):
+            cx.py_raise("KeyError", "unknown schema")
+        return ("parents-of", k.t)
+
+
+PARENTS_HAS = z3.Function("parents_map_has_entry_for", PRef, B)
+
+
+class ParentPath(FnSpec):
+    file = "container/interface.py"
+    qual = "TOCSchemas.parent_path"
+    props = ("C20", "C07")
+
+    def init(self):
+        self.bindings["schemas"] = SchemasNS()
+
+        def plugin_args(cx, s, v, require_version=False):
+            cx.effect("plugin_args", s, v, require_version)
+            a = cx.ghost["pp"]
+            return STuple((a.name, a.ver))
+
+        self.bindings["plugin_args"] = plugin_args
+
+    def setup(self, cx):
+        me = SObj("TOCSchemasRead", name="self")
+        me.fields["_parents"] = ParentsMap()
+        a = A(self=me, schema="schema-arg", version="version-arg")
+        a.name, a.ver = SStr.fresh("schema_name"), VerV(z3.Const("requested_version", Ver))
+        cx.ghost["pp"] = a
+        return a
+
+    def raises(self, cx, a):
+        return {"KeyError": z3.Not(PARENTS_HAS(MKREF(a.name.t, a.ver.t)))}
+
+    def ensures(self, cx, a, res):
+        pa = [e for e in cx.fx if e[0] == "plugin_args"]
+        ok = len(pa) == 1 and pa[0][1] == "schema-arg" and pa[0][2] == "version-arg" and pa[0][3] is True and isinstance(res, tuple) and res[0] == "parents-of"
+        return [("stored-parent-path-of-exactly-that-release", z3.BoolVal(False) if not ok else res[1] == MKREF(a.name.t, a.ver.t), "the inheritance chain reported is the one embedded in the container for exactly that schema release (a version is REQUIRED: plugin_args(..., require_version=True))")]
+
+
+class SchemasKeys(FnSpec):
+    file = "container/interface.py"
+    qual = "TOCSchemas.keys"
+    props = ("C20",)
+
+    def init(self):
+        self.bindings["set"] = lambda cx, x: SSet(x.kt, x.dom) if isinstance(x, SSet) else (_ for _ in ()).throw(Unsupported("set() of something else"))
+
+    def setup(self, cx):
+        me = SObj("TOCSchemasRead", name="self")
+        a = A(self=me)
+        a.used = SSet.fresh(TRefS(), "schemas_in_use")
+        me.fields["_schemas"] = a.used
+        return a
+
+    def raises(self, cx, a):
+        return {}
+
+    def ensures(self, cx, a, res):
+        r = z3.Const(fresh_name("kr"), PRef)
+        if not isinstance(res, SSet):
+            return [("a-set", z3.BoolVal(False), "")]
+        return [("exactly-the-schemas-in-use-as-a-copy", z3.And(z3.BoolVal(res is not a.used), z3.ForAll([r], res.has(r) == a.used.has(r))), "keys() are exactly the schemas in use, handed out as a copy (changing it does not change the container's index)")]
+
+
+def add_tocread2(reg):
+    reg.set_class_home("TOCSchemasRead", "container/interface.py", "TOCSchemas")
+    specs = [Provider(), ParentPath(), SchemasKeys()]
+    for s in specs:
+        reg.add(s)
+    return specs
